@@ -844,6 +844,11 @@ impl Hist {
     /// verdict of the caller.
     pub fn run_suggested(&mut self, mons: &mut [&mut dyn Monitor], r: &mut Reporter) -> (u64, u64, bool) {
         self.mine(self.cfg.initial_len);
+        // a light client learns the roots (and end heights) of completed subtrees from the server
+        // before it starts scanning
+        if self.cfg.shard_start {
+            self.put_completed_roots();
+        }
         let t = self.sim.tip_height();
         if self.tip(t).is_err() {
             self.aborted = Some("update_chain_tip failed".into());
@@ -880,6 +885,9 @@ impl Hist {
                     0 => {
                         let n = self.rng.gen_range(1..=12);
                         self.mine(n);
+                        if self.cfg.shard_start {
+                            self.put_completed_roots();
+                        }
                         let t = self.sim.tip_height();
                         let _ = self.tip(t);
                         tip_updates += 1;
